@@ -242,7 +242,7 @@ void h_decode(void) {
   PartType part = nondet_bool() ? pt_any : (nondet_bool() ? pt_masterData : pt_slaveData); long fieldIndex = nondet_long(); _Bool lead = nondet_bool(); unsigned fmt = nondet_uint();
   g_read_calls = 0; g_read_result[0] = nondet_int(); g_read_result[1] = nondet_int(); g_master_fields = nondet_size();
   __CPROVER_assume(m.m_id.n >= 2 && m.m_id.n <= ID_MAX && fieldIndex >= -1 && fieldIndex < 20 && g_master_fields <= 10 && (fmt & ~(unsigned)0x3ff) == 0);
-  for (int k = 0; k < 2; k++) __CPROVER_assume(g_read_result[k] == RESULT_OK || g_read_result[k] == RESULT_EMPTY || (g_read_result[k] < 0 && g_read_result[k] >= -20));
+  for (int k = 0; k < 2; k++) __CPROVER_assume(g_read_result[k] == RESULT_OK || g_read_result[k] == RESULT_EMPTY || (g_read_result[k] < 0 && g_read_result[k] >= -30));
   result_t r = Message_decodeLastData(&m, part, lead, NULL, fieldIndex, fmt, &out);
   unsigned k = 0;
   if (part == pt_any || part == pt_masterData) {
